@@ -205,4 +205,124 @@ Proof.
   - intros k0 Hk. apply C in Hk. unfold lkeys in *. apply in_map_iff in Hk. destruct Hk as [y [Y1 Y2]]. apply in_map_iff. exists y.
     split. simpl. unfold key_of in *. fold h'. rewrite EN; auto. apply live_linked in Y2. apply Y2. apply LV. auto.
 Qed.
+
+(* ---------- what hashtable_iter_next finds: the first live node of the remaining sequence ---------- *)
+Lemma scan_find : forall h l, all_live h l -> scan v_fixed h l = Ok (find (is_live_id h) l).
+Proof.
+  induction l; simpl; intros; auto. destruct (H a) as [n N]. left; auto. rewrite N. simpl.
+  unfold eligible. simpl. rewrite (is_live_deref _ _ _ N). destruct (negb (hn_removed n)); auto. apply IHl. intros x Hx. apply H. right; auto.
+Qed.
+
+Lemma scan_buckets_find : forall h rest b cands, all_live h (cands ++ concat rest) ->
+  exists r, scan_buckets v_fixed h b cands rest = Ok r /\ option_map fst r = find (is_live_id h) (cands ++ concat rest).
+Proof.
+  induction rest; simpl; intros b cands H.
+  - rewrite scan_find by (intros x Hx; apply H; apply in_or_app; auto). simpl. rewrite app_nil_r.
+    destruct (find (is_live_id h) cands); eexists; split; reflexivity.
+  - rewrite scan_find by (intros x Hx; apply H; apply in_or_app; auto). simpl. rewrite find_app.
+    destruct (find (is_live_id h) cands).
+    + eexists; split; reflexivity.
+    + apply IHrest. intros x Hx. apply H. apply in_or_app; auto.
+Qed.
+
+Lemma after_id_app_in : forall l1 l2 x, In x l1 -> after_id x (l1 ++ l2) = after_id x l1 ++ l2.
+Proof. induction l1; simpl; intros. contradiction. destruct (Nat.eqb a x) eqn:E; auto. destruct H. subst. rewrite Nat.eqb_refl in E. discriminate. auto. Qed.
+Lemma after_id_app_notin : forall l1 l2 x, ~ In x l1 -> after_id x (l1 ++ l2) = after_id x l2.
+Proof.
+  induction l1; simpl; intros; auto. destruct (Nat.eqb a x) eqn:E. apply Nat.eqb_eq in E. subst. exfalso. apply H. left; auto.
+  apply IHl1. intro. apply H. right; auto.
+Qed.
+
+Lemma find_split : forall {A} (p : A -> bool) l x, find p l = Some x -> exists l1 l2, l = l1 ++ x :: l2 /\ (forall y, In y l1 -> p y = false) /\ p x = true.
+Proof.
+  induction l; simpl; intros. discriminate. destruct (p a) eqn:E.
+  - inversion H; subst. exists [], l. repeat split; auto. intros y [].
+  - destruct (IHl x H) as [l1 [l2 [Q1 [Q2 Q3]]]]. exists (a :: l1), l2. subst. repeat split; auto. intros y [Hy|Hy]; subst; auto.
+Qed.
+
+Lemma find_none_all : forall {A} (p : A -> bool) l, find p l = None -> forall y, In y l -> p y = false.
+Proof. intros. eapply find_none in H; eauto. Qed.
+
+(* the remaining sequence of the new position is what followed the node found *)
+Lemma rl_after : forall s b0 cands id b', NoDup (linked s) -> b0 < nb s ->
+  (exists l, nth b0 (h_buckets s) [] = l /\ (cands = l \/ exists cur, cands = after_id cur l)) ->
+  ((In id cands /\ b' = b0) \/ (exists j, b' = S (b0 + j) /\ In id (nth j (skipn (S b0) (h_buckets s)) []))) ->
+  b' < nb s ->
+  after_id id (nth b' (h_buckets s) []) ++ concat (skipn (S b') (h_buckets s)) =
+  after_id id (cands ++ concat (skipn (S b0) (h_buckets s))).
+Proof.
+  intros s b0 cands id b' ND Hb0 [l [HL HC]] POS Hb'.
+  assert (NDl : NoDup l) by (subst l; apply nodup_concat_nth; auto).
+  (* the bucket b0 and the later buckets are disjoint *)
+  assert (DIS : forall x, In x l -> ~ In x (concat (skipn (S b0) (h_buckets s)))).
+  { intros x Hx Q. apply in_concat_skipn in Q. destruct Q as [b1 [B1 B2]]. subst l.
+    assert (b0 = b1) by (eapply nodup_concat_unique; eauto). lia. }
+  assert (CL : forall x, In x cands -> In x l).
+  { intros x Hx. destruct HC as [HC|[cur HC]]; subst cands; auto. eapply after_id_incl; eauto. }
+  destruct POS as [[P1 P2]|[j [P1 P2]]].
+  - subst b'. rewrite after_id_app_in by auto. f_equal. rewrite HL.
+    destruct HC as [HC|[cur HC]]; subst cands; auto. apply after_id_after; auto.
+  - subst b'. assert (NC : ~ In id cands).
+    { intro Q. apply (DIS id (CL id Q)). apply (in_concat_skipn_conv _ (S b0) (S b0 + j)). lia. rewrite nth_skipn' in P2. exact P2. }
+    rewrite after_id_app_notin by auto.
+    set (rest := skipn (S b0) (h_buckets s)) in *.
+    assert (J : j < length rest). { destruct (le_lt_dec (length rest) j); auto. rewrite nth_overflow in P2 by auto. contradiction. }
+    replace (nth (S (b0 + j)) (h_buckets s) []) with (nth j rest []) by (unfold rest; rewrite nth_skipn'; f_equal; lia).
+    replace (skipn (S (S (b0 + j))) (h_buckets s)) with (skipn (S j) rest) by (unfold rest; rewrite skipn_skipn'; f_equal; lia).
+    rewrite (concat_split rest j J).
+    assert (NDR : NoDup (concat rest)). { unfold rest. unfold linked in ND. rewrite (concat_split (h_buckets s) b0) in ND by auto. apply nodup_app_r in ND. apply nodup_app_r in ND. auto. }
+    rewrite (concat_split rest j J) in NDR.
+    rewrite after_id_app_notin. rewrite after_id_app_in by auto. reflexivity.
+    intro Q. eapply nodup_app_disj. exact NDR. exact Q. apply in_or_app. left. auto.
+Qed.
+
+Lemma iter_next_sem : forall s P hi s' hi' r ns, GoodP s (hi :: P) ->
+  h_iter_next v_fixed s hi = Ok (s', hi', r, ns) ->
+  (find (is_live_id (h_heap s)) (Rl s hi) = None /\ r = None /\ hi' = {| hi_node := None; hi_bucket := nb s |}) \/
+  (exists nx b', find (is_live_id (h_heap s)) (Rl s hi) = Some nx /\ hi' = {| hi_node := Some nx; hi_bucket := b' |} /\ b' < nb s /\
+     (exists e, r = Some e) /\
+     after_id nx (nth b' (h_buckets s) []) ++ concat (skipn (S b') (h_buckets s)) = after_id nx (Rl s hi)).
+Proof.
+  intros s P hi s' hi' r ns G. unfold h_iter_next.
+  set (b0 := hi_bucket hi).
+  assert (F : (match hi_node hi with
+               | Some cur => do _ <- deref (h_heap s) cur; Ok (after_id cur (bucket s b0))
+               | None => Ok (bucket s b0) end) = Ok (cands_hi s hi)).
+  { unfold cands_hi. fold b0. destruct (hi_node hi) as [cur|] eqn:Hc; auto.
+    assert (Hb : In cur (bucket s b0)) by (apply (p_iter _ _ G hi cur); auto; left; auto).
+    destruct (p_node _ _ G cur (in_bucket_linked _ _ _ Hb)) as [n [N1 _]]. rewrite N1. reflexivity. }
+  rewrite F. cbn [bind]. unfold Rl. fold b0.
+  destruct (Nat.ltb b0 (nb s)) eqn:LT.
+  2:{ cbn [bind find]. destruct (hi_node hi) as [cur|]; simpl.
+      - destruct (node_deref s cur) as [[s2 ns2]|]; simpl; intro Q; inversion Q; subst. left. auto.
+      - intro Q; inversion Q; subst. left. auto. }
+  assert (AL : all_live (h_heap s) (cands_hi s hi ++ concat (skipn (S b0) (h_buckets s)))).
+  { intros id Hid. apply (goodp_all_live _ _ G). apply in_app_or in Hid. destruct Hid as [Hid|Hid].
+    - unfold cands_hi in Hid. fold b0 in Hid. destruct (hi_node hi); [apply after_id_incl in Hid|]; eapply in_bucket_linked; eauto.
+    - apply in_concat_skipn in Hid. destruct Hid as [b' [_ Hid]]. eapply in_bucket_linked; eauto. }
+  destruct (scan_buckets_find (h_heap s) (skipn (S b0) (h_buckets s)) b0 (cands_hi s hi) AL) as [r0 [R1 R2]].
+  destruct (scan_buckets_safe (h_heap s) (skipn (S b0) (h_buckets s)) b0 (cands_hi s hi) AL) as [r1 [R3 R4]].
+  rewrite R1 in R3. inversion R3; subst r1. clear R3. rewrite R1. cbn [bind]. rewrite <- R2.
+  destruct r0 as [[id b']|]; cbn [option_map fst].
+  2:{ cbn [bind]. destruct (hi_node hi) as [cur|]; simpl.
+      - destruct (node_deref s cur) as [[s2 ns2]|]; simpl; intro Q; inversion Q; subst. left. auto.
+      - intro Q; inversion Q; subst. left. auto. }
+  assert (POS : (In id (cands_hi s hi) /\ b' = b0) \/ (exists j, b' = S (b0 + j) /\ In id (nth j (skipn (S b0) (h_buckets s)) []))) by (apply R4; auto).
+  assert (Hin : In id (bucket s b')).
+  { destruct POS as [[Q1 Q2]|[j [Q1 Q2]]].
+    - subst. unfold cands_hi in Q1. fold b0 in Q1. destruct (hi_node hi); auto. eapply after_id_incl; eauto.
+    - subst. rewrite nth_skipn' in Q2. unfold bucket. replace (S (b0 + j)) with (S b0 + j) by lia. auto. }
+  assert (Hb' : b' < nb s).
+  { unfold nb. destruct (le_lt_dec (length (h_buckets s)) b'); auto. unfold bucket in Hin. rewrite nth_overflow in Hin by auto. contradiction. }
+  assert (RA : after_id id (nth b' (h_buckets s) []) ++ concat (skipn (S b') (h_buckets s)) =
+               after_id id (cands_hi s hi ++ concat (skipn (S b0) (h_buckets s)))).
+  { apply (rl_after s b0 (cands_hi s hi) id b'); auto. apply (p_nodup _ _ G). apply Nat.ltb_lt; auto.
+    exists (bucket s b0). split; auto. unfold cands_hi. fold b0. destruct (hi_node hi); eauto. }
+  destruct (p_node _ _ G id (in_bucket_linked _ _ _ Hin)) as [n [N1 _]]. rewrite N1. cbn [bind].
+  intro Q. right. exists id, b'. split; auto.
+  destruct (hi_node hi) as [cur|].
+  - destruct (node_deref _ cur) as [[s2 ns2]|]; [cbn [bind] in Q|discriminate].
+    destruct (deref (h_heap s2) id); simpl in Q; inversion Q; subst. repeat split; eauto.
+  - simpl in Q. rewrite deref_store in Q by (eapply deref_lt; eauto). rewrite Nat.eqb_refl in Q. simpl in Q. inversion Q; subst. repeat split; eauto.
+Qed.
 End Cov.
